@@ -8,7 +8,8 @@ use vharness::engine::{Prop, Rec};
 fuzz_target!(|data: &[u8]| {
     let mut u = Unstructured::new(data);
     let universe = 2 + u.int_in_range(0u8..=6).unwrap_or(0);
-    let string_labels = u.arbitrary::<bool>().unwrap_or(false);
+    let kind = u.int_in_range(0u8..=2).unwrap_or(0);
+    let (string_labels, coarse) = (kind == 1, kind == 2);
     let n_init = u.int_in_range(0usize..=6).unwrap_or(0);
     let mut initial = vec![];
     for _ in 0..n_init {
@@ -26,7 +27,7 @@ fuzz_target!(|data: &[u8]| {
             _ => StoreOp::RemAtt(a, b),
         });
     }
-    let case = StoreCase { universe, string_labels, initial, ops };
+    let case = StoreCase { universe, string_labels, coarse, initial, ops };
     let mut rec = Rec::default();
     if let Err(f) = vharness::checks::store::Store.run(&case, &mut rec) {
         vharness::fuzzsupport::report("C12", &f, serde_json::to_value(&case).unwrap());
